@@ -34,6 +34,35 @@ fn uncompress(b: &[u8; 48]) -> Option<blst_p1> {
     Some(p)
 }
 
+/// A point of the curve E(Fp) OUTSIDE the prime-order group G1: r * P for a curve point P found from the seed (r = the
+/// group order), i.e. a non-trivial element of the cofactor subgroup. e(T, Q) = 1 for every Q in G2, so sigma + T passes
+/// every pairing equation sigma passes - but it is another byte string (and hashes differently in the lottery).
+pub fn torsion_point(seed: u64) -> Option<[u8; 48]> {
+    // r, little endian
+    const R_LE: [u8; 32] = [
+        0x01, 0x00, 0x00, 0x00, 0xff, 0xff, 0xff, 0xff, 0xfe, 0x5b, 0xfe, 0xff, 0x02, 0xa4, 0xbd, 0x53, 0x05, 0xd8, 0xa1, 0x09, 0x08, 0xd8, 0x39, 0x33, 0x48, 0x7d, 0x9d, 0x29, 0x53, 0xa7,
+        0xed, 0x73,
+    ];
+    for attempt in 0..64u64 {
+        let mut x = [0u8; 48];
+        let s = seed.wrapping_mul(0x9E37_79B9_7F4A_7C15).wrapping_add(attempt);
+        for (i, b) in x.iter_mut().enumerate().skip(1) {
+            *b = (s >> ((i % 8) * 8)) as u8 ^ (i as u8).wrapping_mul(37);
+        }
+        x[0] = 0x80 | ((s >> 56) as u8 & 0x0f); // compressed, not infinity, x < p
+        if uncompress(&x).is_none() {
+            continue;
+        }
+        let t = p1_mult(&x, &R_LE, 255)?;
+        // not the point at infinity
+        if t[0] & 0x40 != 0 {
+            continue;
+        }
+        return Some(t);
+    }
+    None
+}
+
 /// sigma + delta (or sigma - delta), compressed
 pub fn sigma_add(sigma: &[u8; 48], delta: &[u8; 48], negate: bool) -> Option<[u8; 48]> {
     let a = uncompress(sigma)?;
